@@ -175,7 +175,7 @@ fn check<P: Property>(tier: Tier, o: &Opts) -> i32 {
         for (i, n) in pb::NAMES.iter().enumerate() {
             if agg.probes[i] > 0 {
                 probes.put(n, agg.probes[i]);
-            } else {
+            } else if P::probes().contains(&i) {
                 zero_probes.push(*n);
             }
         }
@@ -196,6 +196,7 @@ fn check<P: Property>(tier: Tier, o: &Opts) -> i32 {
             .set("seeds_note", "every random run has its own seed = splitmix64(VERIF_SEED ^ tag(property) ^ index*phi); sweep/enumerated runs are seed-independent")
             .set("faults_injected", faults)
             .set("probes", probes)
+            .set("intended_probes_at_zero", Json::Arr(zero_probes.iter().map(|p| Json::from(*p)).collect()))
             .set("distinct_abstract_edges", agg.edges.len())
             .set("trace_digest", format!("{:016x}/{:016x}", agg.digest_sum, agg.digest_xor))
             .set("workers", o.workers)
@@ -234,8 +235,8 @@ fn check<P: Property>(tier: Tier, o: &Opts) -> i32 {
         new_violations,
         known_hits
     );
-    if tier == Tier::Thorough && !zero_probes.is_empty() {
-        println!("note: probes that never fired for {}: {}", P::ID, zero_probes.join(", "));
+    if !zero_probes.is_empty() {
+        println!("note: intended probes that never fired for {} in this run: {}", P::ID, zero_probes.join(", "));
     }
     if new_violations > 0 {
         1
